@@ -2,7 +2,7 @@ ID = "C19"
 TESTS = [
     T("nfs41sim", "TestC19NFS41ExactlyOnce",
       {"checks": 5000, "shards": 2, "timeout": 300, "args": ["-rapid.shrinktime=15s"]},
-      {"checks": 30000, "shards": 16, "timeout": 1500}),
+      {"checks": 30000, "shards": 5, "timeout": 1500}),
     T("nfs41sim", "TestC19Regress.*",
       {"checks": 1, "shards": 1, "timeout": 120},
       {"checks": 1, "shards": 1, "timeout": 120}, plain=True),
